@@ -11,9 +11,14 @@ CONSTANTS
   CwdVia = {"real", "link"}
   OcNames = {"rel", "abs"}
   CwdSource = "getcwd"
+  EpochEnvs = {"unset", "empty", "0", "1", "normal", "huge", "junk"}
+  ZeroMeansUnset = FALSE
+  PrevFiles = {"none", "same", "longer", "shorter", "symlink"}
+  Truncates = TRUE
   TieBreak = "signature"
 INVARIANT OutputPure
 INVARIANT EpochWins
+INVARIANT NothingStale
 INVARIANT EmbedsArgumentsOnly
 INVARIANT IffTotal
 INVARIANT TotalWithTieBreak
